@@ -186,7 +186,7 @@ func sweepRecheckRule(c *Ctx, ruleID string) {
 func runC07(c *Ctx) {
 	L, P := c.L, c.P
 	L.Rule("R-C07-READCHECK", "every value-yielding read is on the not-expired side of `!exp.IsZero() && now.After(exp)` for the same entry; GetTTL result shapes", 3)
-	L.Rule("R-C07-SETTTL", "ttl<0 stores nothing and returns false; Expiration = Now().Add(ttl) iff ttl != 0, zero otherwise", 3)
+	L.Rule("R-C07-SETTTL", "ttl<0 stores nothing and returns false; Expiration = Now().Add(ttl) iff ttl != 0, zero otherwise; clock read before any hook", 4)
 	L.Rule("R-C07-ATOMICWRITE", "value and expiration written by one map store from one *Item (shared with C01)", 2)
 	L.Rule("R-C07-ZEROAGREE", "every clock comparison of a stored expiration is guarded by IsZero of the same value", 3)
 	L.Rule("R-C07-SWEEP", "the sweep removes only keys whose current expiration is non-zero and not after now", 1)
@@ -312,6 +312,40 @@ func runC07(c *Ctx) {
 	})
 
 	// ---- R-C07-SETTTL
+	c.Group("R-C07-SETTTL", "Cache.SetWithTTL#clock", func() {
+		// the expiration instant is "the time of the SetWithTTL call plus the ttl": the clock is read before
+		// any user-supplied function runs (KeyToHash, ShouldUpdate, callbacks may take arbitrarily long)
+		fn := P.Fn("ristretto", "Cache", "SetWithTTL")
+		tb := newTB(fn)
+		var clock []ssa.Instruction
+		for _, ci := range callsTo(fn, "time.Now") {
+			clock = append(clock, ci)
+		}
+		if len(clock) == 0 {
+			L.Fail("R-C07-SETTTL", "Cache.SetWithTTL#clock", "SetWithTTL never reads the clock", fn.Pos())
+			return
+		}
+		isHook := func(in ssa.Instruction) bool {
+			ci, ok := in.(ssa.CallInstruction)
+			if !ok {
+				return false
+			}
+			cc := ci.Common()
+			if cc.IsInvoke() {
+				return true // store/policy calls: the value may already be visible with a wrong deadline
+			}
+			return staticCallee(cc) == nil && strings.HasPrefix(tb.T(cc.Value).String(), "fld[") // c.keyToHash, c.onExit, ...
+		}
+		var late ssa.Instruction
+		eachInstr(fn, func(in ssa.Instruction) {
+			if late == nil && isHook(in) {
+				if r, _ := reach(after(in), isAnyInstr(clock), nil, nil); r != nil {
+					late = in
+				}
+			}
+		})
+		L.Check(late == nil, "R-C07-SETTTL", "Cache.SetWithTTL#clock", "time.Now() for the expiration is read before KeyToHash / any store call / any callback", "the clock is read after a user-supplied function or a store call has run: the expiration is call time + that function's duration + ttl, so the item is served after its TTL has elapsed", instrPos(late))
+	})
 	c.Group("R-C07-SETTTL", "Cache.SetWithTTL", func() {
 		fn := P.Fn("ristretto", "Cache", "SetWithTTL")
 		L.Analysed(fname(fn))
